@@ -217,10 +217,15 @@ pub fn monitors(cfg: &CfgReq, handles: &[(usize, f64, f64)], pure_score: bool, l
     let factor = spec_factor(cfg);
     let mut prev_cur = h.s0;
     let zero_start = cfg.kt_start == 0.0;
+    // C08 / C19 speak about states whose parameters lie in their declared ranges: an input with a value
+    // outside the range of its handle (or with an empty / inverted range) is outside their hypotheses
+    let in_range0 = log.vectors.get(0).map_or(false, |v0| {
+        handles.iter().all(|(a, lo, hi)| v0.get(*a).map_or(false, |v| lo <= hi && *v >= *lo && *v <= *hi))
+    });
     for (k, st) in h.steps.iter().enumerate() {
         let kt = cfg.kt_start * factor.powi(st.loop_idx as i32);
         // ---- C19: one parameter, bounded move
-        if let Some(a) = st.param.filter(|a| handles.iter().filter(|h| h.0 == *a).count() <= 1) {
+        if let Some(a) = st.param.filter(|a| in_range0 && handles.iter().filter(|h| h.0 == *a).count() <= 1) {
             let range: Option<f64> = {
                 let hs: Vec<&(usize, f64, f64)> = handles.iter().filter(|h| h.0 == a).collect();
                 hs.iter().map(|h| h.2 - h.1).fold(None, |m: Option<f64>, r| Some(m.map_or(r, |x| x.max(r))))
@@ -237,7 +242,7 @@ pub fn monitors(cfg: &CfgReq, handles: &[(usize, f64, f64)], pure_score: bool, l
             }
         }
         // ---- C08: every handled parameter of every proposal inside its range
-        for (a, lo, hi) in handles.iter().filter(|h| handles.iter().filter(|g| g.0 == h.0).count() == 1) {
+        for (a, lo, hi) in handles.iter().filter(|h| in_range0 && handles.iter().filter(|g| g.0 == h.0).count() == 1) {
             if let Some(v) = st.proposal.get(*a) {
                 // with several handles on one cell the union of ranges applies
                 let ok = handles.iter().filter(|h| h.0 == *a).any(|h| *v >= h.1 && *v <= h.2);
@@ -263,7 +268,16 @@ pub fn monitors(cfg: &CfgReq, handles: &[(usize, f64, f64)], pure_score: bool, l
                         out.push(Violation { prop: "C07", what: format!("step {}: an equal score was rejected", k + 1) });
                     }
                     if n < st.cur_before && !(kt > 0.0) && acc {
-                        out.push(Violation { prop: if zero_start { "C05" } else { "C07" }, what: format!("step {} (loop {}): a worse score ({:e} < {:e}) was accepted at zero temperature", k + 1, st.loop_idx, n, st.cur_before) });
+                        let what = format!("step {} (loop {}): a worse score ({:e} < {:e}) was accepted at zero temperature", k + 1, st.loop_idx, n, st.cur_before);
+                        // "never at kT = 0" (C07); with a zero start it is also the hill-climb clause (C05) and,
+                        // once a cooling step has been made, "a zero temperature stays zero" (C18)
+                        out.push(Violation { prop: "C07", what: what.clone() });
+                        if zero_start {
+                            out.push(Violation { prop: "C05", what: what.clone() });
+                            if st.loop_idx >= 1 {
+                                out.push(Violation { prop: "C18", what });
+                            }
+                        }
                     }
                     if n.is_nan() && acc {
                         out.push(Violation { prop: "C07", what: format!("step {}: a NaN score was accepted", k + 1) });
